@@ -201,8 +201,8 @@ Qed.
 
 (* value queries in the middle of a history, get_model at depth, then more commands *)
 Example sync_example :
-  in_sync (stream [AAdd (FAtom 0 (plain [0])); ASolve; AGetValue [0]; ASolve; APush 2; AAdd (FAtom 1 (plain [1]));
-                   AIsSat (FAtom 2 (plain [2])); AGetModel; APop 2; AReset; ASolve; AExit]) = true.
+  in_sync (stream [AAdd (FAtom 0 (plain [0]) []); ASolve; AGetValue [0]; ASolve; APush 2; AAdd (FAtom 1 (plain [1]) []);
+                   AIsSat (FAtom 2 (plain [2]) []); AGetModel; APop 2; AReset; ASolve; AExit]) = true.
 Proof. reflexivity. Qed.
 
 (* ====================================================================== *)
@@ -292,6 +292,7 @@ Section Legal.
       cbn [fst]. destruct Hwf as [H1 H2]. split; [|exact H2].
       intros f y Hf Hy. cbn [lasserts] in Hf. apply s_declared_add. exact (H1 f y Hf Hy).
     - destruct (forallb (fun x => s_declared x s) (fvs f)) eqn:E; [|exact Hwf].
+      destruct (forallb (fun x => s_sort_declared x s) (fsorts f)); [|exact Hwf]. cbn [andb].
       destruct s as [|l r]; [exact I|]. cbn [fst]. destruct Hwf as [H1 H2]. split; [|exact H2].
       intros g x Hg Hx. cbn [lasserts] in Hg. destruct Hg as [<-|Hg].
       + rewrite forallb_forall in E. exact (E x Hx).
@@ -465,15 +466,19 @@ Section Legal.
       as (w0 & s0 & c0 & r0 & R0 & N0 & T1 & T2 & T3 & T4 & T5 & T6 & T7 & T8).
     assert (Hne0 : s0 <> []) by (intros ->; destruct s1; [congruence | discriminate]).
     assert (Hso : forall d0, In d0 (fva f) -> sort_ok (snd d0) s0 = true).
-    { intros [y [x|]] H0; [|reflexivity]. cbn. apply T8. unfold fsorts. eapply sorts_of_in. exact H0. }
+    { intros [y [x|]] H0; [|reflexivity]. cbn. apply T8. unfold fsorts. apply in_or_app. left.
+      eapply sorts_of_in. exact H0. }
     (* symbols *)
     destruct (declare_missing_ok (fva f) w0 s0 T1 T2 T3 Hne0 Hso)
       as (w2 & s2 & c2 & r2 & R2 & N2 & Q1 & Q2 & Q3 & Q4 & Q5 & Q6 & Q7 & Q8).
     assert (Hall : forallb (fun x => s_declared x s2) (fvs f) = true)
       by (apply forallb_forall; exact Q6).
+    assert (Hsorts : forallb (fun x => s_sort_declared x s2) (fsorts f) = true).
+    { apply forallb_forall. intros x Hx. rewrite s_sort_declared_map, Q7, <- s_sort_declared_map.
+      apply T8, Hx. }
     destruct s2 as [|l rest]; [destruct s0; cbn in Q4; [congruence|discriminate]|].
     pose proof (emit_runs (CAssert f) w2 (l :: rest) Q1) as R3.
-    cbn [spec_step] in R3. rewrite Hall in R3. cbn [fst snd] in R3.
+    cbn [spec_step] in R3. rewrite Hall, Hsorts in R3. cbn [andb fst snd] in R3.
     exists w2, (mkL (ldecl l) (f :: lasserts l) (lsorts l) :: rest),
            (c1 ++ c0 ++ c2 ++ [CAssert f]), (r1 ++ r0 ++ r2 ++ [RSuccess]).
     split; [eapply runs_seq; [exact R1|]; eapply runs_seq; [exact R0|]; eapply runs_seq;
@@ -873,22 +878,22 @@ End Legal.
    check whose pending level is cleared by the next call, value queries in the middle, reset;
    symbols 5 and 6 have the custom sort 0, whose name collides with symbol 0 *)
 Definition legal_example : list api_call :=
-  [AAdd (FAtom 0 [(0, None); (1, None); (5, Some 0); (6, Some 0)]); APush 2; AAdd (FAtom 1 (plain [1; 2])); AIsSat (FAtom 2 (plain [3])); APush 1;
-   AAdd (FNot (FAtom 3 (plain [0; 3]))); ASolve; AGetValue [0; 3]; AGetModel; APop 2;
-   AIsValid (FAtom 4 (plain [2])); APop 1; ASolve; AReset; AAdd (FAtom 5 (plain [0])); ASolve; AGetModel; AExit].
+  [AAdd (FAtom 0 [(0, None); (1, None); (5, Some 0); (6, Some 0)] []); APush 2; AAdd (FAtom 1 (plain [1; 2]) []); AIsSat (FAtom 2 (plain [3]) []); APush 1;
+   AAdd (FNot (FAtom 3 (plain [0; 3]) [])); ASolve; AGetValue [0; 3]; AGetModel; APop 2;
+   AIsValid (FAtom 4 (plain [2]) []); APop 1; ASolve; AReset; AAdd (FAtom 5 (plain [0]) []); ASolve; AGetModel; AExit].
 Example legal_example_ok : user_legal 0 legal_example = true.
 Proof. reflexivity. Qed.
 Example legal_example_stream :
   snd (run_api w_init legal_example) =
-  [CDeclareSort 0; CDeclare 0 None; CDeclare 1 None; CDeclare 5 (Some 0); CDeclare 6 (Some 0); CAssert (FAtom 0 [(0, None); (1, None); (5, Some 0); (6, Some 0)]); CPush 2; CDeclare 2 None; CAssert (FAtom 1 [(1, None); (2, None)]); CPush 1; CDeclare 3 None; CAssert (FAtom 2 [(3, None)]); CCheckSat; CPop 1; CPush 1; CDeclare 3 None; CAssert (FNot (FAtom 3 [(0, None); (3, None)])); CCheckSat; CGetValue [0; 3]; CGetValue [3]; CGetValue [2]; CGetValue [6]; CGetValue [5]; CGetValue [1]; CGetValue [0]; CPop 2; CPush 1; CDeclare 2 None; CAssert (FNot (FAtom 4 [(2, None)])); CCheckSat; CPop 1; CPop 1; CCheckSat; CResetAssertions; CDeclare 0 None; CAssert (FAtom 5 [(0, None)]); CCheckSat; CGetValue [0]; CExit].
+  [CDeclareSort 0; CDeclare 0 None; CDeclare 1 None; CDeclare 5 (Some 0); CDeclare 6 (Some 0); CAssert (FAtom 0 [(0, None); (1, None); (5, Some 0); (6, Some 0)] []); CPush 2; CDeclare 2 None; CAssert (FAtom 1 [(1, None); (2, None)] []); CPush 1; CDeclare 3 None; CAssert (FAtom 2 [(3, None)] []); CCheckSat; CPop 1; CPush 1; CDeclare 3 None; CAssert (FNot (FAtom 3 [(0, None); (3, None)] [])); CCheckSat; CGetValue [0; 3]; CGetValue [3]; CGetValue [2]; CGetValue [6]; CGetValue [5]; CGetValue [1]; CGetValue [0]; CPop 2; CPush 1; CDeclare 2 None; CAssert (FNot (FAtom 4 [(2, None)] [])); CCheckSat; CPop 1; CPop 1; CCheckSat; CResetAssertions; CDeclare 0 None; CAssert (FAtom 5 [(0, None)] []); CCheckSat; CGetValue [0]; CExit].
 Proof. reflexivity. Qed.
 
 (* ====================================================================== *)
 (* C. Histories that refuted clauses before the fixes (a-e) are handled    *)
 (* ====================================================================== *)
 
-Definition X := FAtom 0 (plain [0]).
-Definition Y := FAtom 1 (plain [1]).
+Definition X := FAtom 0 (plain [0]) [].
+Definition Y := FAtom 1 (plain [1]) [].
 
 Definition legal_and_quiet (decide : list form -> bool) (h : list api_call) : bool :=
   accepted decide (stream h) && negb (werr (final h)).
@@ -911,6 +916,18 @@ Example former_witnesses_ok :
   model_queries (final [AAdd X; APush 1; AAdd Y]) = [1; 0] /\
   model_queries (final [AAdd X; AIsSat Y]) = [1; 0].
 Proof. repeat split; reflexivity. Qed.
+
+(* a sort that occurs only in binders / array constants of a formula whose free symbols are
+   all declared already: it is declared before the assertion, re-declared after a pop and after
+   reset_assertions (sort 7 with no free symbol of that sort) *)
+Example bound_sort_example :
+  let q := FAtom 1 (plain [0]) [7] in
+  snd (run_api w_init [AAdd X; AAdd q; APush 1; AIsSat (FAtom 2 [] [8]); APop 1; AAdd (FAtom 3 [] [8]);
+                       AReset; AAdd q]) =
+  [CDeclare 0 None; CAssert X; CDeclareSort 7; CAssert q; CPush 1; CPush 1; CDeclareSort 8;
+   CAssert (FAtom 2 [] [8]); CCheckSat; CPop 1; CPop 1; CDeclareSort 8; CAssert (FAtom 3 [] [8]);
+   CResetAssertions; CDeclareSort 7; CDeclare 0 None; CAssert q].
+Proof. reflexivity. Qed.
 
 (* ====================================================================== *)
 (* D. Shortcuts return the corresponding truth                             *)
@@ -967,8 +984,8 @@ End Truth.
 
 (* the hypotheses of section Truth are satisfiable: propositional atoms numbered by id *)
 Fixpoint ex_holds (I : nat -> bool) (f : form) : bool :=
-  match f with FAtom id _ => I id | FNot g => negb (ex_holds I g) end.
+  match f with FAtom id _ _ => I id | FNot g => negb (ex_holds I g) end.
 Example truth_hypotheses_satisfiable :
   (forall I f, ex_holds I (FNot f) = negb (ex_holds I f)) /\
-  sat_by (nat -> bool) ex_holds (fun n => Nat.eqb n 0) [FAtom 0 (plain [0]); FNot (FAtom 1 (plain [1]))].
+  sat_by (nat -> bool) ex_holds (fun n => Nat.eqb n 0) [FAtom 0 (plain [0]) []; FNot (FAtom 1 (plain [1]) [])].
 Proof. split; [reflexivity|]. intros g [<-|[<-|[]]]; reflexivity. Qed.
